@@ -20,5 +20,5 @@ CONSTANTS
   InSets = {}
   Conf0 = 0
   H0 = 0
-INVARIANTS TypeOK FFMonotone FFBelowEnd FFAboveFloor FFCeilAtWidth FFCeilByDeadline FFShape
+INVARIANTS TypeOK FFMonotone FFBelowEnd FFAboveFloor FFCeilAtWidth FFCeilByDeadline FFShape RegroupStart RegroupNoDecrease PubRegroupNoDecrease
 CHECK_DEADLOCK FALSE
